@@ -8,6 +8,7 @@ import (
 	"strconv"
 	"strings"
 	"sync"
+	"sync/atomic"
 )
 
 // FakeRedis is a minimal RESP server (PING, PUBLISH, HELLO/CLIENT/SELECT answered benignly) that
@@ -17,6 +18,9 @@ type FakeRedis struct {
 	mu   sync.Mutex
 	pubs []Pub
 	cond *sync.Cond
+	// StallPublish: a PUBLISH is read and recorded but never answered (a redis that accepts commands and does not
+	// reply: overloaded, or a half-dead connection)
+	StallPublish atomic.Bool
 }
 
 // Pub is one published message.
@@ -112,6 +116,9 @@ func (r *FakeRedis) handle(c net.Conn) {
 				r.pubs = append(r.pubs, Pub{T: Tick(), Channel: string(cmd[1]), Payload: append([]byte(nil), cmd[2]...)})
 				r.cond.Broadcast()
 				r.mu.Unlock()
+			}
+			if r.StallPublish.Load() {
+				continue
 			}
 			c.Write([]byte(":1\r\n"))
 		case "HELLO":
